@@ -100,6 +100,12 @@ TeamsVals(teams) == PMatV([i \in 1..Len(teams.items) |->
 AllRealLeaves(teams) == \A i \in 1..Len(teams.items) : \A j \in 1..Len(teams.items[i].items) :
                            RIsReal(At(teams, i, j).mu) /\ RIsReal(At(teams, i, j).sigma)
 
+\* every slot of well-formed teams holds a different object (the properties speak of players; the same object
+\* passed in two slots is outside their domain)
+RECURSIVE CountSlots(_)
+CountSlots(ts) == IF ts = <<>> THEN 0 ELSE Len(Head(ts).items) + CountSlots(Tail(ts))
+DistinctObjects(teams) == Cardinality({x.ref : x \in Leaves(teams)}) = CountSlots(teams.items)
+
 \* same player data (everything but the allocation number)
 SameData(a, b) == a.t = b.t /\ a.v = b.v /\ a.uid = b.uid /\ a.nt = b.nt /\ a.nm = b.nm /\ a.mu = b.mu /\ a.sigma = b.sigma
 SameValues(a, b) == a.mu = b.mu /\ a.sigma = b.sigma
